@@ -954,6 +954,21 @@ func init() {
 					if !skips && is.Else != nil && laterStages(endOf(is.Body), is.Else) == 0 {
 						skips = true
 					}
+					// … or nothing at all follows the failing branch in this iteration (the last stage, tested at the
+					// end of the loop body or in the last arm of a chain that ends it)
+					if !skips && laterStages(endOf(is.Body), nil) == 0 {
+						if loop := fi.enclosingLoop(is); loop != nil {
+							tail := true
+							for _, c3 := range fi.callsDeep(loop) {
+								if startOf(c3) >= endOf(is) && !fi.within(c3, is) {
+									tail = false // something runs after the if statement in the same iteration
+								}
+							}
+							if tail {
+								skips = true
+							}
+						}
+					}
 					r.Check(added && skips, name+"/stage:"+short, is.Pos(), "a failing %s records its errors and skips to the next function", short)
 				}
 			}
